@@ -594,3 +594,9 @@ package eval
 //@   nosafety
 //@   interruptible
 //@   exit [negative-duration-rejected] d < 0 ==> !(result === nil)
+
+// C17: make-map indexes the collected pair only after checking that exactly two
+// elements were collected (the callback handed to the input stream).
+//@ func makeMap$1
+//@   props C17
+//@   opaque Collect
